@@ -230,6 +230,30 @@ def run(fx, rep):
                 rep.check(okk, 'R3', 'accu_var/%s' % F.norm_path(b.path).rsplit('::', 1)[-1], F.loc_of(s['span']), 'accumulator %s' % sorted(F.term_str(x) for x in ts),
                           'accumulator variable %s is not a constant starting with "@": it could be reported as a reference or shadow a user variable' % sorted(F.term_str(x) for x in ts))
     rep.floor('R3', 5, '(all, exists, exists_one, map, filter)')
+    # a source identifier can never start with (or contain) '@': lexer ATN of IDENTIFIER / ESC_IDENTIFIER
+    from .grammar import Grammar
+    from . import atn as A
+    gl = Grammar(fx, 'lexer')
+    for rule in ('IDENTIFIER',):
+        if rule not in gl.rule_idx:
+            raise F.Lost('lexer rule %s not found' % rule)
+        chars = set()
+        todo = [rule]
+        seen_rules = set()
+        while todo:
+            r_ = todo.pop()
+            if r_ in seen_rules:
+                continue
+            seen_rules.add(r_)
+            for e in A.rule_edges(gl.atn, gl.rule_idx[r_]):
+                if e['type'] == A.RULE:
+                    todo.append(gl.rules[e['rule']])
+                else:
+                    lab = A.labels(e)
+                    if lab:
+                        chars |= A.interval_members(lab)
+        rep.check(ord('@') not in chars and bool(chars), 'R3', 'lexer/%s-cannot-contain-@' % rule, 'gen/cellexer.rs', '%d admissible characters, none is "@"' % len(chars),
+                  'the lexer rule %s admits "@": a source identifier could collide with a macro accumulator' % rule)
     # ---------------- R4
     arms = m.arms()
     disp = {d['block'] for d in m.dispatch_sites()}
